@@ -723,6 +723,9 @@ func (ro *RedisOutput) parseAofCommand(replayQuit usync.WaitCloser, reader *bufi
 		bypass    = false
 		newArgv   [][]byte
 		reject    bool
+		// source transaction bookkeeping of the filters : a MULTI was seen and not yet its
+		// EXEC; that MULTI was forwarded; the current command is the EXEC that closes it
+		txnOpen, txnForwarded, keepExec bool
 	)
 	defer ro.logger.Infof("command parser is stopped")
 
@@ -785,14 +788,26 @@ func (ro *RedisOutput) parseAofCommand(replayQuit usync.WaitCloser, reader *bufi
 				ignoresentinel = true
 			}
 
-			if bypass || ignoreCmd || ignoresentinel {
+			drop := bypass || ignoreCmd || ignoresentinel
+			// MULTI and EXEC belong to no database : a transaction that switches into or out of
+			// a filtered database must still be closed if and only if it was opened, otherwise
+			// the sender stays inside the transaction for ever (or sees an EXEC without MULTI)
+			keepExec = false
+			if sCmd == "multi" {
+				txnOpen, txnForwarded = true, !drop
+			} else if sCmd == "exec" && txnOpen {
+				txnOpen = false
+				drop = !txnForwarded
+				keepExec = txnForwarded
+			}
+			if drop {
 				ro.filterCounterAdd(1)
 				continue
 			}
 		}
 
 		newArgv, reject = ro.outFilter.FilterCmdKey(sCmd, argv)
-		if bypass || reject {
+		if (bypass && !keepExec) || reject {
 			ro.filterCounterAdd(1)
 			continue
 		}
